@@ -3,6 +3,7 @@ package props
 import (
 	"fmt"
 	"go/types"
+	"sort"
 	"strings"
 
 	"golang.org/x/tools/go/ssa"
@@ -15,10 +16,10 @@ func init() {
 		ID: "C11",
 		Explanation: "Structural necessary conditions of 'audit precedes effect and disclosure; no plaintext secrets in entries', on every CFG path: " +
 			"(1) request audit success precedes backend dispatch in both request handlers; " +
-			"(2) in Core.handleCancelableRequest every return that can carry a response after the handlers ran crosses the success edge of AuditBroker.LogResponse, whose failure edge returns a nil response; " +
+			"(2) in Core.handleCancelableRequest every return that can carry a response after the handlers ran crosses the success edge of AuditBroker.LogResponse, whose failure edge returns a nil response, and the Response put into that audit's LogInput is the response returned across the success edge (same origins; the only other origin allowed is the decoded body on the unwrap path; never absent); " +
 			"(3) AuditBroker.LogRequest/LogResponse report success only if some device accepted the entry (the only 'true' flowing into anyLogged sits on the device call's nil-error edge) or no device is configured, a panic in a device is recovered into an error, and the per-device header transformation replaces the raw headers before every device call; " +
 			"(4) in non-raw mode every field of the audit entry structs is read out of the hashed copies returned by HashAuth/HashRequest/HashResponse, never from the LogInput directly; " +
-			"(5) the sanitisers overwrite every sensitive field (client token, accessors when configured, request/response data, nested auth, wrap info token/accessors) of a *copy* with the salted-HMAC function's result and return the copy; the walker writes back only the callback's result and skips a leaf only for map keys, non-strings, RFC3339 times and a leaf whose *own* current key is in the exemption list.",
+			"(5) the sanitisers overwrite every sensitive field (client token, accessors when configured, request/response data, nested auth, wrap info token/accessors) of a *copy* with the salted-HMAC function's result and return the copy; the map handed to hashMap is the very value the overwrite stores (resolved flow-sensitively at the call, so hashing the input's live map through the not-yet-overwritten copy field is refused); the walker writes back only the callback's result and skips a leaf only for map keys, non-strings, RFC3339 times and a leaf whose *own* current key is in the exemption list.",
 		NotDecided: "that reflectwalk visits every leaf of every payload shape (runtime traversal); absence of secrets in fields logged by design (paths, metadata, policy names, remote address); behaviour of individual audit devices.",
 		Run:        runC11,
 	})
@@ -112,6 +113,57 @@ func runC11(c *eng.Ctx, thorough bool) {
 			for _, v := range eng.StructLitField(in, "Request") {
 				c.Clause("R5", "C11.2")
 				c.Prov(f, "LogInput.Request in response audit", lr, v, `^param:req$`)
+			}
+			// the response audited is the response disclosed on the success edge (or, for unwrap, its decoded form)
+			c.Clause("R5", "C11.2")
+			site := "prov{LogInput.Response audited = response returned across the audit's success edge}"
+			auds := eng.StructLitField(in, "Response")
+			aud := map[ssa.Value]bool{}
+			for _, v := range auds {
+				c11PhiLeaves(v, aud)
+			}
+			ret := map[ssa.Value]bool{}
+			for _, r := range eng.ReturnsFrom(f, eng.CallOKEdges(lr), nil, nil) {
+				vals, _, _ := eng.ReturnVals(r, 0)
+				for _, v := range vals {
+					if v != nil {
+						c11PhiLeaves(v, ret)
+					}
+				}
+			}
+			var missing, foreign []string
+			nRet := 0
+			for v := range ret {
+				if eng.IsNilConst(v) {
+					continue
+				}
+				nRet++
+				if !aud[v] {
+					missing = append(missing, eng.Expr(v))
+				}
+			}
+			for v := range aud {
+				if ret[v] {
+					continue
+				}
+				if cl, ok := v.(*ssa.Call); ok && eng.CalleeName(&cl.Call) == "logical.HTTPResponseToLogicalResponse" {
+					continue // unwrap: the decoded form of the raw body that will be written out
+				}
+				foreign = append(foreign, eng.Expr(v))
+			}
+			sort.Strings(missing)
+			sort.Strings(foreign)
+			switch {
+			case len(auds) == 0:
+				c.Violation(f, site, lr.Pos(), "the LogInput handed to LogResponse has no Response: the response about to be disclosed is not in the audit entry", nil)
+			case nRet == 0:
+				c.Undecided(f, site, lr.Pos(), "no response-carrying return found across the success edge of LogResponse; the rule cannot be evaluated")
+			case len(missing) > 0:
+				c.Violation(f, site, lr.Pos(), fmt.Sprintf("response value(s) %v can be returned to the client after the audit but are not what LogInput.Response carries (%d audited origin(s)): the entry does not describe the response disclosed", missing, len(aud)), nil)
+			case len(foreign) > 0:
+				c.Violation(f, site, lr.Pos(), fmt.Sprintf("LogInput.Response may carry %v, which is neither the response returned nor its decoded form", foreign), nil)
+			default:
+				c.OK(f, site, lr.Pos(), fmt.Sprintf("all %d origin(s) of the returned response are origins of LogInput.Response; the only other audited origin is the decoded unwrap body", nRet))
 			}
 		}
 	}
@@ -318,6 +370,26 @@ func runC11(c *eng.Ctx, thorough bool) {
 	// ---------- C11.5 sanitiser table
 	c11Sanitisers(c)
 	c11Walker(c)
+}
+
+// c11PhiLeaves collects the non-phi values merged into v.
+func c11PhiLeaves(v ssa.Value, out map[ssa.Value]bool) {
+	seen := map[ssa.Value]bool{}
+	var walk func(v ssa.Value)
+	walk = func(v ssa.Value) {
+		if v == nil || seen[v] {
+			return
+		}
+		seen[v] = true
+		if p, ok := v.(*ssa.Phi); ok {
+			for _, e := range p.Edges {
+				walk(e)
+			}
+			return
+		}
+		out[v] = true
+	}
+	walk(v)
 }
 
 func matches(pat, s string) bool {
